@@ -197,6 +197,44 @@ fn file_case(toks: &[&str]) -> String {
     s
 }
 
+/// evt <secs> <nanos> <level> <k> tags..: like `ev`, but the event carries the given time (UNIX_EPOCH + secs + nanos):
+/// it is logged with servlin::log::internal::log(time, ..) to the channel logger and rendered from there.  The time
+/// and time_ns members must come out right for every instant, the first second after the epoch included.
+fn evt(toks: &[&str]) -> String {
+    let secs: u64 = toks[0].parse().unwrap();
+    let nanos: u32 = toks[1].parse().unwrap();
+    let lvl = level(toks[2]);
+    let k: usize = toks[3].parse().unwrap();
+    let mut floats = Vec::new();
+    let mut tags: Vec<Tag> = Vec::new();
+    for i in 0..k {
+        let name = static_name(&string_of_scalars_tok(toks[4 + 2 * i]));
+        let v = value(toks[5 + 2 * i], &mut floats);
+        tags.push(Tag::new(name, v));
+    }
+    let time = std::time::UNIX_EPOCH + std::time::Duration::new(secs, nanos);
+    if servlin::log::internal::log(time, lvl, tags).is_err() {
+        return "panic".to_string();
+    }
+    let g = RX.lock().unwrap_or_else(std::sync::PoisonError::into_inner);
+    let rx = g.as_ref().unwrap();
+    let Ok(e) = rx.try_recv() else { return "panic".to_string() };
+    let mut s = format!("F{}", floats.len());
+    for f in &floats {
+        s.push(' ');
+        s.push_str(&tok_of_bytes(f.as_bytes()));
+    }
+    s.push_str(" L ");
+    s.push_str(&render(&e));
+    // the time_ns member is the instant in nanoseconds, as a JSON number
+    let line = String::from_utf8_lossy(&bytes_of_tok(&render(&e))).to_string();
+    let want = format!("\"time_ns\":{}}}", u128::from(secs) * 1_000_000_000 + u128::from(nanos));
+    if !line.trim_end().ends_with(&want) {
+        return format!("time_ns-member-is-not-{}", u128::from(secs) * 1_000_000_000 + u128::from(nanos));
+    }
+    s
+}
+
 fn chars(toks: &[&str]) -> String {
     let lo: u32 = toks[0].parse().unwrap();
     let n: u32 = toks[1].parse().unwrap();
@@ -250,6 +288,7 @@ fn main() {
         "ev" => ev(&toks[1..]),
         "chars" => chars(&toks[1..]),
         "file" => file_case(&toks[1..]),
+        "evt" => evt(&toks[1..]),
         "resp" => resp(&toks[1..]),
         _ => "?".to_string(),
     });
